@@ -4140,7 +4140,12 @@ impl<'a> Parser<'a> {
                 // Check for mapped type: { [P in keyof T]: T[P] }
                 // vs index signature: { [key: string]: T }
                 // We need to detect: { [ident in ...]
-                if self.check(&TokenKind::Readonly) || self.check(&TokenKind::LBracket) {
+                // (a mapped type may start with readonly, +readonly or -readonly)
+                if self.check(&TokenKind::Readonly)
+                    || self.check(&TokenKind::LBracket)
+                    || self.check(&TokenKind::Plus)
+                    || self.check(&TokenKind::Minus)
+                {
                     // Try to parse as mapped type
                     if let Some(mapped) = self.try_parse_mapped_type(start)? {
                         return Ok(mapped);
